@@ -836,13 +836,15 @@ func (w *worker) runPath(fn *ssaFunc, jb job) (newJobs []job) {
 		st.Covers[c]++
 	}
 	for _, v := range ps.viols {
-		dup := false
+		// keep up to 4 counterexamples per label (from different paths): the
+		// driver confirms a label if any of them reproduces natively
+		same := 0
 		for _, o := range st.Violations {
 			if o.Label == v.Label && o.Known == v.Known {
-				dup = true
+				same++
 			}
 		}
-		if !dup {
+		if same < 4 {
 			st.Violations = append(st.Violations, v)
 		}
 	}
